@@ -1,1 +1,464 @@
-fn main() {}
+//! C08 — the off-circuit public-input encoding is exactly what the circuit binds.
+//!
+//! For every type that can be exposed as a public input, every member of a boundary alphabet and
+//! every exposure path, on the real `MidnightCircuit`:
+//!  (a) MockProver accepts with instance = `Instantiable::as_public_input(v)`;
+//!  (b) it rejects every single-position edit (+1) and drop-last;
+//!  (c) the vector the circuit binds (in-circuit `as_public_input`, and the cells copy-constrained
+//!      to the instance rows) equals the off-circuit encoding element-wise, and no row beyond the
+//!      encoding is bound;
+//!  (d) the off-circuit encoder is injective on the alphabet (and agrees with the documented format);
+//!  (e) `nb_public_inputs` of the `MidnightVK` equals the length of the encoding for relations
+//!      exposing sequences of mixed types, and `verify` answers `InvalidInstances` on longer /
+//!      shorter vectors.
+
+mod mock;
+mod types;
+mod verif;
+mod zk;
+
+use std::collections::HashMap;
+
+use ff::Field;
+
+use midnight_proofs::{plonk::Error, utils::SerdeFormat};
+use midnight_zk_stdlib::{MidnightCircuit, MidnightVK, ZkStdLibArch};
+use rand_chacha::ChaCha20Rng;
+use rand_core::SeedableRng;
+use serde_json::json;
+use vcore::{catch, panic_site, CaseOut, Ctx, Level, Viol};
+
+use crate::{
+    mock::{check_expose, hexv},
+    types::{alphabets, quick_pick, Alphabet, Expose, Path, Ty, Val, F},
+};
+
+type H = blake2b_simd::State;
+
+pub fn vk_nb_public_inputs(vk: &MidnightVK, arch: ZkStdLibArch) -> Result<usize, String> {
+    let mut a = vec![];
+    arch.write(&mut a).map_err(|e| e.to_string())?;
+    let mut b = vec![];
+    vk.write(&mut b, SerdeFormat::RawBytes).map_err(|e| e.to_string())?;
+    if b.len() < a.len() + 5 || b[..a.len()] != a[..] {
+        return Err("unexpected MidnightVK header".into());
+    }
+    Ok(u32::from_le_bytes(b[a.len() + 1..a.len() + 5].try_into().unwrap()) as usize)
+}
+
+fn encbytes(v: &[F]) -> Vec<u8> {
+    v.iter().flat_map(|x| x.to_bytes_le().as_ref().to_vec()).collect()
+}
+
+/// (d) injectivity and agreement with the documented format, over one alphabet
+fn injectivity(a: &Alphabet) -> CaseOut {
+    let mut out = CaseOut::batch();
+    let t = a.ty.name();
+    // computed BigUints: the bound comes from the circuit; the natural one is used here
+    let nb = match a.ty {
+        Ty::BigSum(n) => Some(n + 1),
+        Ty::BigMul(n) => Some(2 * n),
+        _ => None,
+    };
+    let mut seen: HashMap<Vec<u8>, (String, String)> = HashMap::new();
+    for (name, v) in &a.members {
+        let enc = match catch(|| v.encode(nb)) {
+            Ok(e) => e,
+            Err(p) => {
+                out.eval("off-circuit:panic", true);
+                out.viol(Viol::new(format!("{t}:off-circuit:panic"), format!("Instantiable::as_public_input panicked on {}: {p}", v.describe()), json!({"value": v.describe(), "panic": p})));
+                continue;
+            }
+        };
+        let reference = v.reference(nb);
+        let agrees = enc == reference;
+        out.eval(if agrees { "encoding:as-documented" } else { "encoding:not-as-documented" }, true);
+        if !agrees {
+            out.viol(Viol::new(
+                format!("{t}:off-circuit-encoding-differs-from-documented-format"),
+                format!("off-circuit encoding of {} differs from the documented format (limbs of x-1 / coordinates / is-identity flag on limb 0 / base-2^96 limbs)", v.describe()),
+                json!({"value": v.describe(), "encoding": hexv(&enc), "reference": hexv(&reference)}),
+            ));
+        }
+        let id = v.identity();
+        match seen.get(&encbytes(&enc)) {
+            Some((other_name, other_id)) if *other_id != id => {
+                out.eval("injectivity:collision", true);
+                out.viol(Viol::new(
+                    format!("{t}:encoding-not-injective"),
+                    format!("distinct values `{other_name}` and `{name}` of type {} share one encoding", a.ty.tag()),
+                    json!({"a": other_name, "b": name, "b_value": v.describe(), "encoding": hexv(&enc)}),
+                ));
+            }
+            Some(_) => out.count("injectivity:same-value-twice", 1),
+            None => {
+                out.eval("injectivity:distinct", true);
+                seen.insert(encbytes(&enc), (name.clone(), id));
+            }
+        }
+    }
+    out
+}
+
+fn main() {
+    let mut cx = Ctx::from_args("C08", Level::Exploration);
+    cx.worker_rayon_threads = Some(1);
+    cx.set_rule(
+        "types: AssignedBit, AssignedByte, AssignedNative, AssignedField over secp256k1 scalar / secp256k1 base / BLS12-381 base, \
+         AssignedNativePoint<Jubjub>, AssignedScalarOfNativeCurve<Jubjub>, AssignedForeignPoint over secp256k1 and BLS12-381 G1 (incl. identity), \
+         AssignedBigUint (nb_bits at and around multiples of 96 for 1..4 limbs, nb_bits=0, sums and products with gadget-derived bounds), \
+         AssignedVk, AssignedAccumulator/AssignedMsm (plain and committed-scalars form), the six ZKIR value types; \
+         values: boundary alphabet per type (0, 1, m-1, limb boundaries of x-1, identity, ±G, maximal limbs, leading/trailing zero limbs, 2 seeded random); \
+         paths: assign+constrain_as_public_input, assign_as_public_input, assign_fixed+constrain_as_public_input, constrain_as_committed_public_input (bit/byte/native); \
+         per (type,value,path): MockProver on the real MidnightCircuit with instance = off-circuit encoding, every +1 single-position edit, drop-last, \
+         element-wise comparison of the encoding with the in-circuit as_public_input and with the cells copy-constrained to the instance rows; \
+         injectivity of the encoder over the whole alphabet; relations exposing all sequences of <=3 types (quick: <=2 plus a diagonal of the triples) and one 40-value relation: \
+         nb_public_inputs in MidnightVK = length of the encoding, verify() with longer/shorter vector = InvalidInstances, real prove+verify for the short ones. \
+         A case is non-trivial unless the exposed vector is empty.",
+    );
+    cx.assume("MockProver's permutation check is the ground truth for `the circuit is satisfied with this instance vector` (C02 checks MockProver itself)");
+    cx.assume("a shorter instance vector is padded with zeros by the proof system, so dropping a trailing 0 is the same vector; length is enforced by nb_public_inputs in verify (checked in the sequences group)");
+    let seed = cx.seed;
+    let thorough = cx.tier.is_thorough();
+    let alpha = alphabets(seed, thorough);
+
+    // ------------------------------------------------------------------ (d) injectivity
+    let inj_cases: Vec<(String, &Alphabet)> = alpha.iter().map(|a| (a.ty.tag(), a)).collect();
+    cx.run_cases("injectivity", &inj_cases, |a| injectivity(a));
+
+    // ------------------------------------------------------------------ (a)(b)(c) per type, value, path
+    let mut cases: Vec<(String, (Val, Path))> = vec![];
+    for a in &alpha {
+        let n = if thorough { a.members.len() } else { quick_pick(a.ty).min(a.members.len()) };
+        for (name, v) in a.members.iter().take(n) {
+            for p in a.ty.paths() {
+                cases.push((format!("{}/{}/{}", a.ty.tag(), name, p.name()), (v.clone(), p)));
+            }
+        }
+    }
+    // boundary of the BigUint bound itself
+    cases.push(("Big0/0/constrain".into(), (Val::Big(num_bigint::BigUint::from(0u32), 0), Path::Constrain)));
+    cx.run_cases("expose", &cases, |(v, p)| {
+        let mut out = CaseOut::batch();
+        let rel = Expose { items: vec![(v.clone(), *p)] };
+        let what = format!("{} via {}", v.describe(), p.name());
+        if let Some(enc) = check_expose(&rel, &what, &mut out) {
+            out.sample = Some(json!({"value": v.describe(), "path": p.name(), "encoding": hexv(if *p == Path::Committed { &enc.committed } else { &enc.plain })}));
+        }
+        // nb_bits = 0 is reported under its own key
+        if matches!(v, Val::Big(_, 0)) {
+            for x in out.viols.iter_mut() {
+                x.finding_key = format!("AssignedBigUint:nb_bits=0:{}", x.finding_key.rsplit(':').next().unwrap_or(""));
+            }
+        }
+        out
+    });
+
+    // ------------------------------------------------------------------ anti-vacuity: the oracle notices wrong encoders
+    {
+        use midnight_proofs::circuit::Value;
+        let find = |ty: Ty, name: &str| -> Val { alpha.iter().find(|a| a.ty == ty).and_then(|a| a.members.iter().find(|m| m.0 == name)).map(|m| m.1.clone()).unwrap() };
+        let labels_of = |n: usize| vec![("self-check".to_string(), "constrain".to_string()); n];
+        // 1. identity point encoded without the is-identity flag; 2. two limbs swapped; 3. one element too many
+        let id = find(Ty::SecpP, "identity");
+        let mut no_flag = id.encode(None);
+        no_flag[0] -= F::from(2).pow_vartime([64u64]);
+        let fe = find(Ty::BlsB, "random0");
+        let mut swapped = fe.encode(None);
+        swapped.swap(0, 1);
+        let nat = find(Ty::Nat, "2");
+        let mut too_long = nat.encode(None);
+        too_long.push(F::from(5));
+        for (name, v, wrong, expect) in [
+            ("identity-without-flag", id, no_flag, "encoding-not-accepted"),
+            ("swapped-limbs", fe, swapped, "encoding-not-accepted"),
+            ("one-element-too-many", nat, too_long, "edit-accepted"),
+        ] {
+            let rel = Expose { items: vec![(v, Path::Constrain)] };
+            let (k, _) = mock::static_pass(&rel).expect("static pass");
+            let circuit = MidnightCircuit::new(&rel, Value::known(wrong.clone()), Value::known(()), Some(mock::MAX_BIT_LEN));
+            let labs = labels_of(wrong.len());
+            let mut scratch = CaseOut::batch();
+            mock::check_circuit(&circuit, k, &[], &wrong, &[], &mock::Labels { plain: &labs, committed: &[] }, name, &mut scratch);
+            let noticed = scratch.viols.iter().any(|x| x.finding_key.ends_with(expect));
+            cx.require(noticed, &format!("the oracle does not notice the deliberately wrong encoding `{name}`"));
+            cx.add_counter("self-check:wrong-encoder-noticed", noticed as u64);
+        }
+    }
+
+    // ------------------------------------------------------------------ (e) sequences of mixed types
+    let pick = |ty: Ty, name: &str| -> Val { alpha.iter().find(|a| a.ty == ty).and_then(|a| a.members.iter().find(|m| m.0 == name)).map(|m| m.1.clone()).unwrap_or_else(|| panic!("no member {name} in {ty:?}")) };
+    let reps: Vec<Val> = vec![
+        pick(Ty::Bit, "true"),
+        pick(Ty::Byte, "255"),
+        pick(Ty::Nat, "m-1"),
+        pick(Ty::SecpS, "m-2"),
+        pick(Ty::JubP, "G"),
+        pick(Ty::JubS, "m-1"),
+        pick(Ty::SecpP, "-G"),
+        pick(Ty::BlsP, "random0"),
+        pick(Ty::Big(97), "max"),
+    ];
+    let path_for = |v: &Val, i: usize, flip: usize| -> Path {
+        let ps: Vec<Path> = v.ty().paths().into_iter().filter(|p| matches!(p, Path::Constrain | Path::Assign)).collect();
+        ps[(i + flip) % ps.len()]
+    };
+    let mut seqs: Vec<(String, (Vec<(Val, Path)>, bool))> = vec![];
+    let n = reps.len();
+    let mk = |idx: &[usize], flip: usize| -> (String, Vec<(Val, Path)>) {
+        let items: Vec<(Val, Path)> = idx.iter().enumerate().map(|(i, t)| (reps[*t].clone(), path_for(&reps[*t], i, flip))).collect();
+        (format!("[{}]", items.iter().map(|(v, p)| format!("{}:{}", v.ty().tag(), p.name())).collect::<Vec<_>>().join(",")), items)
+    };
+    for flip in 0..2usize {
+        if flip == 0 {
+            let (k, it) = mk(&[], 0);
+            seqs.push((k, (it, true)));
+        }
+        for a in 0..n {
+            let (k, it) = mk(&[a], flip);
+            // real proofs for the length-1 relations
+            seqs.push((k, (it, true)));
+            for b in 0..n {
+                let (k, it) = mk(&[a, b], flip);
+                seqs.push((k, (it, thorough && flip == 0)));
+                for c in 0..n {
+                    if thorough || (flip == 0 && (a + 2 * b + 3 * c) % 9 == 0) {
+                        let (k, it) = mk(&[a, b, c], flip);
+                        seqs.push((k, (it, false)));
+                    }
+                }
+            }
+        }
+    }
+    // boundary representatives (zeros and identities): all sequences of length <= 1 (quick) / <= 2 (thorough)
+    {
+        let reps0: Vec<Val> = vec![
+            pick(Ty::Bit, "false"),
+            pick(Ty::Byte, "0"),
+            pick(Ty::Nat, "0"),
+            pick(Ty::SecpS, "0"),
+            pick(Ty::JubP, "identity"),
+            pick(Ty::JubS, "0"),
+            pick(Ty::SecpP, "identity"),
+            pick(Ty::BlsP, "identity"),
+            pick(Ty::Big(96), "0"),
+        ];
+        let mk0 = |idx: &[usize]| -> (String, Vec<(Val, Path)>) {
+            let items: Vec<(Val, Path)> = idx.iter().enumerate().map(|(i, t)| (reps0[*t].clone(), path_for(&reps0[*t], i, 0))).collect();
+            (format!("zeros[{}]", items.iter().map(|(v, p)| format!("{}:{}", v.ty().tag(), p.name())).collect::<Vec<_>>().join(",")), items)
+        };
+        for a in 0..n {
+            let (k, it) = mk0(&[a]);
+            seqs.push((k, (it, thorough)));
+            if thorough {
+                for b in 0..n {
+                    let (k, it) = mk0(&[a, b]);
+                    seqs.push((k, (it, false)));
+                }
+            }
+        }
+    }
+    // committed public inputs do not count in nb_public_inputs
+    {
+        let nat = pick(Ty::Nat, "m-1");
+        let byte = pick(Ty::Byte, "255");
+        let bit = pick(Ty::Bit, "true");
+        for (name, items) in [
+            ("committed[Nat]", vec![(nat.clone(), Path::Committed)]),
+            ("committed[Nat,Nat:constrain,Byte]", vec![(nat.clone(), Path::Committed), (nat.clone(), Path::Constrain), (byte.clone(), Path::Committed)]),
+            ("committed[Bit:assign,Bit,SecpP,Byte,Nat:constrain]", vec![(bit.clone(), Path::Assign), (bit.clone(), Path::Committed), (reps[6].clone(), Path::Constrain), (byte.clone(), Path::Committed), (nat.clone(), Path::Constrain)]),
+        ] {
+            seqs.push((name.to_string(), (items, false)));
+        }
+    }
+    // remove duplicates created by types with a single path
+    {
+        let mut seen = std::collections::HashSet::new();
+        seqs.retain(|s| seen.insert(s.0.clone()));
+    }
+    // the 40-value relation: cycles through the types and through each alphabet
+    {
+        let tys = [Ty::Bit, Ty::Byte, Ty::Nat, Ty::SecpS, Ty::SecpB, Ty::BlsB, Ty::JubP, Ty::JubS, Ty::SecpP, Ty::BlsP, Ty::Big(97), Ty::Big(288)];
+        let items: Vec<(Val, Path)> = (0..40)
+            .map(|i| {
+                let a = alpha.iter().find(|a| a.ty == tys[i % tys.len()]).unwrap();
+                let v = a.members[(i / tys.len()) % a.members.len()].1.clone();
+                let p = path_for(&v, i / tys.len(), i % 2);
+                (v, p)
+            })
+            .collect();
+        seqs.push(("forty-values".into(), (items, true)));
+    }
+    seqs.sort_by_key(|s| s.1 .0.len());
+    cx.run_cases("sequences", &seqs, |(items, real)| {
+        let mut out = CaseOut::batch();
+        let t_start = std::time::Instant::now();
+        let rel = Expose { items: items.clone() };
+        let what = format!("the sequence [{}]", items.iter().map(|(v, p)| format!("{} via {}", v.describe(), p.name())).collect::<Vec<_>>().join("; "));
+        let Some(enc) = check_expose(&rel, &what, &mut out) else { return out };
+        let n = enc.plain.len();
+        let nontrivial = n > 0;
+        // keys
+        let r = catch(|| {
+            let k = MidnightCircuit::from_relation(&rel).min_k();
+            let srs = vfam::api::setup(k, seed);
+            let vk = midnight_zk_stdlib::setup_vk(&srs, &rel);
+            (k, srs, vk)
+        });
+        let (k, srs, vk) = match r {
+            Ok(x) => x,
+            Err(p) => {
+                out.eval("setup_vk:panic", nontrivial);
+                out.viol(Viol::new(format!("setup_vk:panic:{}", panic_site(&p)), format!("setup_vk panicked for {what}: {p}"), json!({"case": what})));
+                return out;
+            }
+        };
+        use midnight_zk_stdlib::Relation;
+        match vk_nb_public_inputs(&vk, rel.used_chips()) {
+            Err(e) => out.viol(Viol::new("nb_public_inputs:unreadable", e, json!({"case": what}))),
+            Ok(got) => {
+                out.eval(if got == n { "nb_public_inputs:equal" } else { "nb_public_inputs:differs" }, nontrivial);
+                if got != n {
+                    out.viol(Viol::new(
+                        "nb_public_inputs:mismatch",
+                        format!("MidnightVK records nb_public_inputs = {got} while the off-circuit encoding of {what} has {n} elements"),
+                        json!({"case": what, "recorded": got, "encoding_len": n, "k": k}),
+                    ));
+                    return out;
+                }
+            }
+        }
+        let vparams = srs.verifier_params();
+        let proof: Vec<u8> = if *real {
+            let r = catch(|| {
+                let pk = midnight_zk_stdlib::setup_pk(&rel, &vk);
+                midnight_zk_stdlib::prove::<Expose, H>(&srs, &pk, &rel, &enc.plain, (), ChaCha20Rng::seed_from_u64(seed ^ 0xc08))
+            });
+            match r {
+                Ok(Ok(p)) => {
+                    out.eval("prove:ok", nontrivial);
+                    p
+                }
+                Ok(Err(e)) => {
+                    out.eval("prove:error", nontrivial);
+                    out.viol(Viol::new("prove:honest-statement-fails", format!("prove failed on the off-circuit encoding of {what}: {e:?}"), json!({"case": what})));
+                    return out;
+                }
+                Err(p) => {
+                    out.eval("prove:panic", nontrivial);
+                    out.viol(Viol::new(format!("prove:panic:{}", panic_site(&p)), format!("prove panicked on {what}: {p}"), json!({"case": what})));
+                    return out;
+                }
+            }
+        } else {
+            vec![]
+        };
+        let verify = |inst: &Vec<F>| catch(|| midnight_zk_stdlib::verify::<Expose, H>(&vparams, &vk, inst, None, &proof));
+        if *real {
+            match verify(&enc.plain) {
+                Ok(Ok(())) => out.eval("verify:honest-accepted", nontrivial),
+                Ok(Err(e)) => {
+                    out.eval("verify:honest-rejected", nontrivial);
+                    out.viol(Viol::new("verify:honest-proof-rejected", format!("verify rejects an honest proof with the off-circuit encoding of {what}: {e:?}"), json!({"case": what})));
+                }
+                Err(p) => out.viol(Viol::new(format!("verify:panic:{}", panic_site(&p)), format!("verify panicked on {what}: {p}"), json!({"case": what}))),
+            }
+            // same length, one element edited: must be rejected (any error)
+            for pos in [0usize, n.saturating_sub(1)] {
+                if pos >= n {
+                    continue;
+                }
+                let mut e = enc.plain.clone();
+                e[pos] += F::from(1);
+                match verify(&e) {
+                    Ok(Ok(())) => {
+                        out.eval("verify:edited-accepted", true);
+                        let (t, p) = enc.plain_labels[pos].clone();
+                        out.viol(Viol::new(format!("{t}:{p}:edit-accepted"), format!("the real verifier accepts the proof for {what} with position {pos} of the instance incremented"), json!({"case": what, "position": pos})));
+                    }
+                    Ok(Err(_)) => out.eval("verify:edited-rejected", true),
+                    Err(p) => out.viol(Viol::new(format!("verify:panic:{}", panic_site(&p)), format!("verify panicked: {p}"), json!({"case": what}))),
+                }
+            }
+        }
+        // wrong lengths
+        let mut wrong: Vec<(&str, Vec<F>)> = vec![];
+        let mut longer = enc.plain.clone();
+        longer.push(F::from(0));
+        wrong.push(("append-0", longer));
+        let mut longer2 = enc.plain.clone();
+        longer2.extend([F::from(7), F::from(0)]);
+        wrong.push(("append-7-0", longer2));
+        if n > 0 {
+            wrong.push(("drop-last", enc.plain[..n - 1].to_vec()));
+            wrong.push(("empty", vec![]));
+        }
+        for (name, w) in wrong {
+            if w.len() == n {
+                continue;
+            }
+            match verify(&w) {
+                Ok(Err(Error::InvalidInstances)) => out.eval("verify:wrong-length:InvalidInstances", true),
+                Ok(r) => {
+                    out.eval("verify:wrong-length:other", true);
+                    out.viol(Viol::new(
+                        "verify:wrong-length-not-InvalidInstances",
+                        format!("verify with a vector of length {} ({name}) instead of {n} returned {r:?} for {what}", w.len()),
+                        json!({"case": what, "mutation": name, "real_proof": real}),
+                    ));
+                }
+                Err(p) => {
+                    out.eval("verify:wrong-length:panic", true);
+                    out.viol(Viol::new(format!("verify:wrong-length:panic:{}", panic_site(&p)), format!("verify panicked on a wrong-length vector ({name}) for {what}: {p}"), json!({"case": what})));
+                }
+            }
+            // the batch entry point insists on the same number
+            match catch(|| midnight_zk_stdlib::batch_verify::<H>(&vparams, std::slice::from_ref(&vk), std::slice::from_ref(&w), std::slice::from_ref(&proof))) {
+                Ok(Err(Error::InvalidInstances)) => out.eval("batch_verify:wrong-length:InvalidInstances", true),
+                Ok(r) => {
+                    out.eval("batch_verify:wrong-length:other", true);
+                    out.viol(Viol::new(
+                        "batch_verify:wrong-length-not-InvalidInstances",
+                        format!("batch_verify with a vector of length {} ({name}) instead of {n} returned {r:?} for {what}", w.len()),
+                        json!({"case": what, "mutation": name, "real_proof": real}),
+                    ));
+                }
+                Err(p) => out.viol(Viol::new(format!("batch_verify:wrong-length:panic:{}", panic_site(&p)), format!("batch_verify panicked on a wrong-length vector ({name}) for {what}: {p}"), json!({"case": what}))),
+            }
+        }
+        if *real && enc.committed.is_empty() {
+            match catch(|| midnight_zk_stdlib::batch_verify::<H>(&vparams, std::slice::from_ref(&vk), std::slice::from_ref(&enc.plain), std::slice::from_ref(&proof))) {
+                Ok(Ok(())) => out.eval("batch_verify:honest-accepted", nontrivial),
+                Ok(Err(e)) => {
+                    out.eval("batch_verify:honest-rejected", nontrivial);
+                    out.viol(Viol::new("batch_verify:honest-proof-rejected", format!("batch_verify rejects an honest proof with the off-circuit encoding of {what}: {e:?}"), json!({"case": what})));
+                }
+                Err(p) => out.viol(Viol::new(format!("batch_verify:panic:{}", panic_site(&p)), format!("batch_verify panicked on {what}: {p}"), json!({"case": what}))),
+            }
+        }
+        out.sample = Some(json!({"relation": what, "k": k, "nb_public_inputs": n, "real_proof": real}));
+        if std::env::var("C08_TIMING").is_ok() {
+            eprintln!("TIMING {:.3}s k={k} real={real} {}", t_start.elapsed().as_secs_f64(), rel.shape());
+        }
+        out
+    });
+
+    // ------------------------------------------------------------------ verifier types
+    verif::run(&mut cx);
+
+    // ------------------------------------------------------------------ ZKIR value types
+    zk::run(&mut cx);
+
+    // ------------------------------------------------------------------ anti-vacuity
+    let sum = |cx: &Ctx, suffix: &str| -> u64 { ["expose", "sequences"].iter().map(|g| cx.class_count(&format!("{g}:{suffix}"))).sum() };
+    let (s1, s2, s3, s4) = (sum(&cx, "honest:accepted"), sum(&cx, "edit+1:rejected"), sum(&cx, "bound-cell:equal"), sum(&cx, "in-circuit-as_public_input:equal"));
+    cx.require(s1 > 100, "fewer than 100 honest exposures accepted");
+    cx.require(s2 > 500, "fewer than 500 rejected single-position edits");
+    cx.require(s3 > 500, "bound-cell comparison did not run");
+    cx.require(s4 > 100, "in-circuit as_public_input comparison did not run");
+    cx.require(cx.class_count("injectivity:injectivity:distinct") > 150, "injectivity check did not run");
+    cx.require(cx.class_count("sequences:nb_public_inputs:equal") > 50, "nb_public_inputs comparison did not run");
+    cx.require(cx.class_count("sequences:verify:wrong-length:InvalidInstances") > 100, "wrong-length verification did not run");
+    cx.require(cx.class_count("sequences:verify:honest-accepted") >= 10, "no real proof verified");
+    cx.finish()
+}
